@@ -490,7 +490,7 @@ def loop_position_vars(m):
             written.add(lvalue_root(x["l"]))
         elif x.get("k") == "un" and x.get("op") in ("pre++", "post++", "pre--", "post--"):
             written.add(lvalue_root(x["e"]))
-    return [d for d in reads(cond) if d.startswith("l") and d in written]
+    return [d for d in reads(cond) if facts.is_local_decl(d) and d in written]
 
 
 def rule_flag_table(res, rid, m):
@@ -519,7 +519,7 @@ def rule_flag_table(res, rid, m):
     chunk = strip_all_casts(cps[0][3]).get("decl")
     idxv = [lvalue_root(x["e"]) for part in (m.loop_stmt.get("body", {}), m.loop_stmt.get("inc") or {}) for x in walk(part)
             if x.get("k") == "un" and x.get("op") in ("pre++", "post++")]
-    idxv = [d for d in idxv if d and d.startswith("l") and d not in (posv,)]
+    idxv = [d for d in idxv if d and facts.is_local_decl(d) and d not in (posv,)]
     # the segment index must not wrap within one packet: up to 65535 segments (payload <= 65535 bytes, one byte per frame at worst)
     for n0 in pp.nodes():
         if n0.get("k") == "decl":
@@ -1644,7 +1644,14 @@ def rule_header_tables_agree(res, rid, m):
     choose the same id field per message type and pair up on the unconditional fields."""
     fb = m.fb
     w = fb.fn(PKT + "::getRawMessageHeader")
-    r = fb.fn(PKT + "::setMessageHeader")
+    r = fb.fn_opt(PKT + "::setMessageHeader")
+    if r is None:
+        # the reader written out in the constructor that takes the message type and the raw message
+        cands = [f for f in fb.fns(PKT + "::Packet") if len(f.params) == 3 and f.body is not None and
+                 any(True for _ in f.calls(MH + "::getTimestamp"))]
+        if len(cands) != 1:
+            raise Broken("message header reader (Packet::setMessageHeader or the constructor from raw bytes) not found")
+        r = cands[0]
     en = fb.enum(CH + "::MessageType")
     ids_w = {MH + "::setInterfaceId": "interfaceId", MH + "::setVendorId": "vendorId"}
     ids_r = {MH + "::getInterfaceId": "interfaceId", MH + "::getVendorId": "vendorId"}
